@@ -6,6 +6,7 @@ the implementation's state *before* the step (exact rationals of the float64 dat
 Selections (crop/trim/append) are compared exactly; linspace/interpolation results with relative tolerance 1e-11."""
 import warnings
 from fractions import Fraction
+import math
 import numpy as np
 import vlib
 from harness.speccommon import *
@@ -19,12 +20,12 @@ LEVEL_TEXT = ('Lean 4 theorems about an executable list model of Spectrum whose 
               '(integrate_linear, integrate_additive_at_sample) and exact for piecewise-linear data relative to the hand-defined reference `pwLinearIntegral` (trapz_exact_piecewise_linear, integrate_exact_piecewise_linear: equal to the sum over segments of the increments of a primitive of each segment\'s line; trapz_exact_linear_segment for one global line); both rules return one bin per centre (bin_length); trapezoid bins of a non-negative spectrum are non-negative for non-negative fill values and strictly increasing centres (bin_trapz_nonneg, about `bin` itself; hypotheses 0 ≤ fill_below, 0 ≤ fill_above, StrictInc centres; the zero-raw-sum case under preserve_power is covered: the code\'s translated guard `total != 0` leaves the raw bins unchanged), exact for a spectrum whose samples lie on ONE line with all bin edges inside the sampled range (bin_trapz_exact_linear) and, per bin, whenever the two edges of the bin lie in one data segment — the spectrum is linear across that bin, whatever it does elsewhere — the bin is the exact integral of the line of that segment (bin_trapz_exact_per_bin); Simpson bins with symmetric ends are non-negative (bin_simps_nonneg_symmetric); with power preservation the TRAPEZOID bins sum to the trapezoid `integrate` over the centres\' span whenever the un-normalised bins do not sum to zero, and are the un-normalised bins themselves when they do (bin_preserve_power_sum); bins normalised by a supplied integral I sum to I for either rule, same two cases (bin_preserve_power_sum_given); '
               ' refusals leave the spectrum (append/resample/trim/pad) or an emptied grid (crop).')
 LEVEL_NOTE = ('partial: non-negativity of Simpson bins for ends="inside" / integer-dtype centres / under preserve_power, exactness of Simpson bins '
-              'and every scipy.integrate.simpson clause are oracle-only. Open known finding KF-C15-bin-integer-centres. '
+              'and every scipy.integrate.simpson clause are oracle-only. Open known findings KF-C15-bin-integer-centres and KF-C15-bin-raw-sum-zero-nonzero-integral (preserve_power: when every sample point of the rule falls on a zero of the spectrum or outside the data the un-normalised bins sum to exactly zero while the integral over the centres\' span does not — the bins stay zero, the sum clause fails there; model witness kf_bin_raw_sum_zero_nonzero_integral; bin_preserve_power_sum* prove the sum clause exactly for a non-zero raw sum and bins = raw otherwise). '
               'Trusted: scipy interp1d(kind=linear) = piecewise-linear interpolant with fill; np.linspace, np.delete, np.trapz as modelled.')
 TECHNIQUE = 'Lean 4 proof (induction over lists and over operation histories) about a hand model + per-step differential correspondence at ℚ'
 GEN = ['SpectrumOps', 'Units']
 OPS = ['C15']
-RULE = ('streams: histories, integrate, setvalue (sample/bin, assign `value`/`wave`, sample/bin again on the same object), bin (own/other/default unit, integer-dtype centres int16/32/64 up to the top of the range), unit (sample/resample across units), extremes (number scales, histories > 32 ops in search/thorough). histories of 5..12 (quick) / 5..30 (thorough) operations drawn from crop/trim/pad/append/resample with parameters relative to the '
+RULE = ('streams: histories, integrate, setvalue (sample/bin, assign `value`/`wave`, sample/bin again on the same object), bin (zero-raw-sum stream in three sub-classes: dark spectrum, centres outside the data, sample points of the rule on zeros of a non-dark spectrum [known finding]; own/other/default unit, integer-dtype centres int16/32/64 up to the top of the range), unit (sample/resample across units), extremes (number scales, histories > 32 ops in search/thorough). histories of 5..12 (quick) / 5..30 (thorough) operations drawn from crop/trim/pad/append/resample with parameters relative to the '
         'current range (inside, at, and outside it; refusals included: non-increasing grids, overlapping appends, wrong lengths, '
         'non-positive pads, tol>=1) on dyadic spectra of 2..10 samples (one in five stored as int64); integrate with random bounds, linear/additive/exactness probes; '
         'bin with 2..7 centres (uniform and non-uniform), trapz/simps, symmetric/inside, preserve_power on/off, scalar and pair '
@@ -36,10 +37,12 @@ TRUSTED = ['scipy.interpolate.interp1d(kind="linear", bounds_error=False, fill_v
 UNPROVEN = [            'integrate theorems (linearity, additivity at a sample, piecewise-linear exactness) are about method="trapz"; the DEFAULT method "simps" (scipy.integrate.simpson) is not modelled: oracle/implementation only, also inside preserve_power for Simpson bins',
             'non-negativity of Simpson bins for ends="inside", integer-dtype centres, or with preserve_power (symmetric ends without it: bin_simps_nonneg_symmetric)',
             'Simpson binning with integer-dtype centres (open known finding KF-C15-bin-integer-centres: mid-points truncated)',
+            'preserve_power when the un-normalised bins sum to exactly zero but the integral over the span of the centres does not: the sum clause is FALSE there (open known finding KF-C15-bin-raw-sum-zero-nonzero-integral); proven instead: the bins are the un-normalised ones (bin_preserve_power_sum*), exhibited by kf_bin_raw_sum_zero_nonzero_integral',
             'Simpson bins: exactness for linear spectra on uniform centres (oracle only)',
             'integrate(method="simps") (scipy.integrate.simpson is not modelled)',
             ]
-ASSUMPTIONS = ['append() ignores the wavelength unit of the appended spectrum (its numbers are appended as they are and keep the caller\'s unit label): generated (tag append:other-unit), model and oracle follow the code — the result is well-formed, which is all the property claims; reported as an observation',
+ASSUMPTIONS = ['preserve_power classes are told apart by the un-normalised bins of the same call (a second call with preserve_power=False on an equal spectrum; its sum is compared with the model\'s raw sum): raw sum exactly zero and integral zero => all-zero bins demanded; raw sum exactly zero and integral non-zero => known finding; otherwise the bins must sum to the integral',
+               'append() ignores the wavelength unit of the appended spectrum (its numbers are appended as they are and keep the caller\'s unit label): generated (tag append:other-unit), model and oracle follow the code — the result is well-formed, which is all the property claims; reported as an observation',
                'bin(interp_method="simps", preserve_power=True) raises ValueError (from scipy.integrate.simpson) when no data sample lies inside the span of the centres; such calls are outside the modelled scope',
                'spectra are 1-D with finite data; histories run under every unit label (nm/um/angstrom/m; also at x2^-30 and x2^10 number scales); sample, resample and bin are also run with abscissae in another unit or the default nm (the code converts a copy)',
                'histories continue after a refusal with the object as the refused call left it']
@@ -165,6 +168,16 @@ def generate(rng, tier):
         out.append({'kind': 'bin', 'wave': w, 'value': [0.0] * len(w) if zero else v, 'linear': None, 'm': int(rng.integers(2, 6)), 'uniform': True,
                     'fa': 0.25 if zero else 1.25, 'fb': 0.75 if zero else 1.5, 'jit': [0.0] * 8, 'simps': bool(rng.integers(0, 2)), 'ends': ['symmetric', 'inside'][int(rng.integers(0, 2))],
                     'pp': True, 'fill': 0.0, 'unit': 'nm', 'req': 'nm', 'omit_unit': False, 'cen_int': False, 'zero_sum': True})
+    # ... and the third sub-class: raw sum zero although the integral over the span is NOT zero (every sample point of the rule falls
+    # on a zero of the spectrum or outside the data): power cannot be preserved — open known finding KF-C15-bin-raw-sum-zero-nonzero-integral
+    for i in range(1 if tier == 'quick' else 6):
+        lo_, d_ = float(rng.integers(1, 60)), float(rng.integers(1, 5))
+        simps_ = bool(i % 2)
+        v = [float(x) for x in rng.integers(1, 16, 9)]
+        for j in ([0, 3, 6] if simps_ else [3]): v[j] = 0.0
+        out.append({'kind': 'bin', 'wave': [lo_ + d_ * j for j in range(9)], 'value': v, 'linear': None, 'm': 3, 'uniform': True, 'fa': 0.0, 'fb': 1.5, 'jit': [0.0] * 8,
+                    'simps': simps_, 'ends': 'symmetric', 'pp': True, 'fill': 0.0, 'unit': 'nm', 'req': 'nm', 'omit_unit': False, 'cen_int': False, 'zero_sum': True,
+                    'dtype': ['int', 'float'][int(rng.integers(0, 2))]})
     # the same object sampled / binned, given new values through the `value` setter (and new wavelengths through `wave`), and
     # sampled / binned again: the second answers must be those of the new data
     for i in range(max(n // 12, 10)):
@@ -398,6 +411,10 @@ def _impl(c):
                 out['bins'] = [float(x) for x in bins]
             except (ValueError, IndexError) as e:
                 out['exc'] = type(e).__name__
+            if c['pp'] and 'bins' in out:
+                # the un-normalised bins of the same call (a fresh, equal spectrum): decides whether power CAN be preserved
+                try: out['raw'] = [float(x) for x in R.Spectrum(w * scale, v, waveunit=c['unit']).bin(carr, interp_method=method, ends=c['ends'], preserve_power=False, fill_value=_pyfill(c['fill']), **kw)]
+                except (ValueError, IndexError): pass
             if len(cen) >= 2:
                 # the integral over the span of the centres in the requested unit, on an independently converted spectrum
                 sel = [(x, y) for x, y in zip(wave_req, np.asarray(v, dtype=float)) if min(cen) <= x <= max(cen)]
@@ -521,6 +538,11 @@ def _cmp_bin(c, io, m):
     if not m.get('ok'): return f"bin: model refused ({m.get('err')}), impl answered"
     mb = _fl(m['v'])
     if any(not np.isfinite(x) for x in io['bins']): return f"bins are not finite ({io['bins']}); the model's un-normalised bins sum to {float(unq(m['rawsum']))}, model bins {mb}"
+    if c['pp'] and 'raw' in io:
+        # the class of the call (can the power be preserved at all?) is decided by the raw sum: model and code must agree on it
+        rs = float(unq(m['rawsum']))
+        if (unq(m['rawsum']) == 0) != (math.fsum(io['raw']) == 0) or not close(math.fsum(io['raw']), rs, 1e-10, 1e-13 * (1 + abs(rs))):
+            return f"un-normalised bins: impl {io['raw']} (sum {math.fsum(io['raw'])!r}), model sum {rs!r}"
     if not all_close(mb, io['bins'], 1e-10, 1e-13): return f"bins: impl {io['bins']} model {mb}"
     return None
 
@@ -683,6 +705,13 @@ def oracle(c, io):
             edge_tie = any(0 < abs(x - b_) < 1e-9 * (whi - wlo) for x in e for b_ in (wlo, whi))
             if not edge_tie and not all_close(bins, ref, 1e-9, 1e-12 * (1 + max(abs(x) for x in ref))):
                 return f'{tag}: bins {bins}; trapezoid rule over the bin edges {e} gives {ref}'
+        if c['pp'] and 'raw' in io and math.fsum(io['raw']) == 0:
+            # guarded rescaling: nothing to rescale, the un-normalised bins are returned as they are
+            if bins != io['raw']: return f"{tag}: the un-normalised bins {io['raw']} sum to zero but the bins returned are {bins}"
+            if 'norm' in io and np.isfinite(io['norm']) and io['norm'] != 0:
+                return (f"{tag}: {RAWZERO}: bins sum to {sum(bins)!r}, the integral over the centres' span (in {req}) is {io['norm']!r} "
+                        f"(the rule samples the spectrum only at the bin edges{' and mid-points' if c['simps'] else ''}, where it is zero or outside the data)")
+            return None
         if c['pp'] and 'norm' in io and np.isfinite(io['norm']):
             if not close(sum(bins), io['norm'], 1e-10, 1e-12 * (1 + abs(io['norm']))):
                 return f"{tag}: bins sum to {sum(bins)!r}, the integral over the centres' span (in {req}) is {io['norm']!r}"
@@ -695,13 +724,26 @@ def shrink(c):
             yield dict(c, ops=ops[:i] + ops[i + 1:])
 
 # ------------------------------------------------------------------------------------------ known findings
+RAWZERO = 'power cannot be preserved, the un-normalised bins sum to exactly zero'
+KF_RAWZERO = 'KF-C15-bin-raw-sum-zero-nonzero-integral'
+KF_WITNESS = ([33, 36, 39, 42, 45, 48, 51, 54, 57], [13, 5, 10, 0, 11, 12, 9, 0, 14], [33., 51., 69.])
+
 def matches_finding(kf, case, msg):
     m = kf.get('match', {})
+    if kf.get('id') == KF_RAWZERO:
+        # exactly this class: preserve_power, un-normalised bins summing to exactly zero, integral over the centres' span non-zero
+        return case.get('kind') == 'bin' and bool(case.get('pp')) and RAWZERO in msg
     return (case.get('kind') == 'bin' and bool(case.get('cen_int')) and bool(case.get('simps')) and 'integer-dtype centres' in msg
             and m.get('interp_method') == 'simps')
 
 def replay_finding(kf):
     R = _R()
+    if kf.get('id') == KF_RAWZERO:
+        w, v, cen = KF_WITNESS
+        s = R.Spectrum(np.array(w), np.array(v))
+        b = s.bin(np.array(cen), interp_method='trapz', preserve_power=True)
+        I = s.integrate(min(cen), max(cen), method='trapz')
+        return I != 0 and not (np.all(np.isfinite(b)) and np.isclose(np.sum(b), I))
     w = np.arange(500., 521.)
     s = R.Spectrum(w, 2 * w + 1)
     b = s.bin(np.array([503, 506, 509, 512]), preserve_power=False)
